@@ -28,4 +28,6 @@ pub mod c20;
 #[cfg(kani)]
 pub mod c05;
 #[cfg(kani)]
+pub mod c17;
+#[cfg(kani)]
 mod setup;
